@@ -11,18 +11,19 @@ import re
 import vf
 
 META = {
-    "text": "15 theorems (Coq, no axioms).  FULL for every program of the callback language: if `check` accepts, no trace of an "
+    "text": "18 theorems (Coq, no axioms).  FULL for every program of the callback language: if `check` accepts, no trace of an "
             "entry point started in a read-only context performs a forbidden mutator, contract code called back included "
             "(C20_analysis_sound); if `counter_ok` accepts, every path through every function restores ctx.nestedView and keeps "
             "it positive while a view function body runs (C20_counter_analysis_sound); for every worker count and history of "
             "slot allocations / releases / transaction stores a query never gets a transaction slot and its slot holds its own "
             "context (C20_alloc_never_returns_reserved_slot, C20_distinct_live_contexts_distinct_slots, "
-            "C20_callbacks_see_own_context); C20_view_function_readonly composes them, so 'isQuery or nestedView>0' is derived "
-            "for view functions.  PARTIAL: the read-only theorems assume amount >= 0 or fork version >= 5; without it F13 "
+            "C20_callbacks_see_own_context); C20_view_function_readonly composes them ('isQuery or nestedView>0' derived for view functions); an "
+            "amount-carrying recovery point stays linked only where the transfer was reached, never in a read-only context "
+            "(C20_recpoint_matches_effect, C20_refusal_leaves_no_recovery_point).  PARTIAL: the read-only theorems assume amount >= 0 or fork version >= 5; without it F13 "
             "(luaSendAmount reaches SendBalance with a negative amount, version 4) is recomputed from the translated source each "
             "run: known keys C20:F13:*.  Tie, every run (no VM can be built here): gen_vmguard translates all 255 Go functions "
             "of package contract, lib/g6_cscan the Lua-registered C functions; obligations closed by vm_compute: check, "
-            "counter_ok, reviewed C inventory, classified callees, reviewed uses of the context flags (isQuery never assigned, "
+            "counter_ok, recpoints_ok, reviewed C inventory, classified callees, reviewed uses of the context flags (isQuery never assigned, "
             "contexts never copied) and of the context table; gen_vmguard_slots extracts the real allocContextSlot / "
             "freeContextSlot text, runs it natively on ~64 000 histories with direct predicates and compares with the model.",
     "note": "Trusted: Coq kernel + vm_compute (no axioms); the translators gen_vmguard (go/parser, no types: calls resolved by name "
@@ -115,7 +116,7 @@ def coq_paths(ctx, which):
         return None, out
     flat = " ".join(out.split())
     paths = []
-    for m in re.finditer(r'\("([^"]+)",\s*\{\|\s*eQ := (\w+); eV := (\w+); eP := (\w+); eZ := (\w+); eF := (\w+)\s*\|\},\s*"([^"]+)"\)', flat):
+    for m in re.finditer(r'\(\s*"([^"]+)",\s*\{\|\s*eQ := (\w+); eV := (\w+); eP := (\w+); eZ := (\w+); eF := (\w+)\s*\|\},\s*"([^"]+)"\)', flat):
         cb, q, v, p, z, f5, mut = m.groups()
         paths.append({"callback": cb, "mutator": mut,
                       "context": {"isQuery": q == "true", "nestedView>0": v == "true", "amount>0": p == "true",
@@ -212,11 +213,38 @@ def coq_slot_sites(ctx):
             if t not in ("true", "false"):
                 return None, "could not parse RES_E:\n" + out[-1500:]
             continue
-        items = re.findall(r'\("((?:[^"]|"")*)",\s*"((?:[^"]|"")*)",\s*"((?:[^"]|"")*)"\)', t)
+        items = re.findall(r'\(\s*"((?:[^"]|"")*)",\s*"((?:[^"]|"")*)",\s*"((?:[^"]|"")*)"\)', t)
         if t not in ("[]", "nil") and not items:
             return None, "could not parse %s:\n%s" % (n, out[-1500:])
         res[n] = [{"where": a, "kind": b, "what": c.replace('""', '"')} for a, b, c in items]
     return res, out
+
+
+def coq_recpoints(ctx):
+    """the recovery-point analysis on the generated term: (function, context, reason, witness path) rows"""
+    txt = ["From Coq Require Import String List Bool.", "From Verif Require Import VmGuard.Lang VmGuard.RecPoint Gen.Callbacks.",
+           "Import ListNotations.",
+           "Definition flat (l : list (string * env * string * list (string * bool))) := map (fun x => (fst (fst (fst x)), eQ (snd (fst (fst x))), eV (snd (fst (fst x))), eF (snd (fst (fst x))), snd (fst x), snd x)) l.",
+           "Definition RES_REC := Eval vm_compute in flat (rec_offending all_functions ++ rec_ro_offending all_functions)%list.", "Print RES_REC.",
+           "Definition RES_END := tt.", "Print RES_END."]
+    ctx.coq_make(["VmGuard/RecPoint.vo", "Gen/Callbacks.vo"])
+    rc, out = ctx.coq_eval("recpoints", "\n".join(txt))
+    if rc != 0:
+        return None, out
+    flat = " ".join(out.split())
+    m = re.search(r"\bRES_REC = (.*?) \bRES_END = ", flat)
+    if not m:
+        return None, "could not find RES_REC in:\n" + out[-1500:]
+    r = m.group(1).rsplit(" : ", 1)[0].strip()
+    rows = []
+    for mm in re.finditer(r'\(\s*"([^"]+)",\s*(true|false),\s*(true|false),\s*(true|false),\s*"([^"]+)",\s*(\[.*?\]|nil)\)(?=;|\s*\]|\s*$)', r):
+        fn, q, v, f5, reason, w = mm.groups()
+        steps = [{"at": a.replace('""', '"'), "taken": b == "true"} for a, b in re.findall(r'\(\s*"((?:[^"]|"")*)",\s*(true|false)\)', w)]
+        rows.append({"function": fn, "context": {"isQuery": q == "true", "nestedView>0": v == "true", "amount>0": True, "forkVersion>=5": f5 == "true"},
+                     "reason": reason, "path": steps})
+    if r not in ("[]", "nil") and not rows:
+        return None, "could not parse the printed recovery-point rows:\n" + out[-1500:]
+    return rows, out
 
 
 def coq_counter(ctx):
@@ -251,16 +279,16 @@ def coq_counter(ctx):
         sec[n] = m.group(1).rsplit(" : ", 1)[0].strip()
     res = {"paths": [], "new": [], "gone": []}
     r = sec["RES_PATHS"]
-    for m in re.finditer(r'\("([^"]+)",\s*(true|false),\s*"([^"]+)",\s*(-?\d+),\s*(-?\d+),\s*(\[.*?\]|nil)\)(?=;|\s*\]|\s*$)', r):
+    for m in re.finditer(r'\(\s*"([^"]+)",\s*(true|false),\s*"([^"]+)",\s*(-?\d+),\s*(-?\d+),\s*(\[.*?\]|nil)\)(?=;|\s*\]|\s*$)', r):
         fn, v, reason, d, p, w = m.groups()
-        steps = [{"at": a.replace('""', '"'), "taken": b == "true"} for a, b in re.findall(r'\("((?:[^"]|"")*)",\s*(true|false)\)', w)]
+        steps = [{"at": a.replace('""', '"'), "taken": b == "true"} for a, b in re.findall(r'\(\s*"((?:[^"]|"")*)",\s*(true|false)\)', w)]
         res["paths"].append({"function": fn, "isView": v == "true", "reason": reason, "counter_delta_at_exit": int(d),
                              "pending_deferred_effect": int(p), "net_effect_on_nestedView": int(d) + int(p), "path": steps})
     if r not in ("[]", "nil") and not res["paths"]:
         return None, "could not parse the printed counter paths:\n" + out[-1500:]
     for n, key in (("RES_NEW", "new"), ("RES_GONE", "gone")):
         t = sec[n]
-        items = re.findall(r'\("((?:[^"]|"")*)",\s*"((?:[^"]|"")*)",\s*"((?:[^"]|"")*)"\)', t)
+        items = re.findall(r'\(\s*"((?:[^"]|"")*)",\s*"((?:[^"]|"")*)",\s*"((?:[^"]|"")*)"\)', t)
         if t not in ("[]", "nil") and not items:
             return None, "could not parse %s:\n%s" % (n, out[-1500:])
         res[key] = [{"function": a, "field": b, "what": c.replace('""', '"')} for a, b, c in items]
@@ -340,6 +368,26 @@ def run(ctx):
                               % (r["m"], " ".join(r["ops"]), r["res"], r["final"], r["last"]),
                               {"maxContext": r["m"], "history": r["ops"], "real": {"res": r["res"], "final": r["final"], "last": r["last"]},
                                "differing_histories": len(mm), "how": how_slots}))
+    # ---- recovery points
+    rec_rows, outr = coq_recpoints(ctx)
+    if rec_rows is None:
+        ctx.violation("could not evaluate the recovery-point analysis on the translated functions", {"log": outr[-2000:]}, no_input=True)
+    else:
+        rg = {}
+        for row in rec_rows:
+            rg.setdefault((row["function"], row["reason"]), []).append(row)
+        ops = ("RecPush:amount", "RecPush:zero", "RecPop", "sendBalance", "SendBalance", "ExecuteSystemTx", "return")
+        for (fn, reason), rl in list(rg.items())[:4]:
+            rl.sort(key=lambda x: (not (x["context"]["isQuery"] or x["context"]["nestedView>0"]), len(x["path"])))
+            row = rl[0]
+            steps = "; ".join(st["at"] if st["at"] in ops else "%s -> %s" % (st["at"], "taken" if st["taken"] else "not taken")
+                              for st in row["path"] if st["at"]) or "(see reason)"
+            slot_find.append(("C20:recpoint:%s:%s" % (fn, reason[:40]),
+                              "%s, context isQuery=%s nestedView>0=%s amount>0: %s; path: %s" % (fn, str(row["context"]["isQuery"]).lower(),
+                                                                                       str(row["context"]["nestedView>0"]).lower(), reason, steps),
+                              {"path": row, "contexts": [x["context"] for x in rl][:8],
+                               "meaning": "clearRecoveryPoint / revertState of an enclosing recovery point moves the recorded amount back from the callee to the "
+                                          "caller without a balance check: a recovery point describing a transfer that never happened moves funds"}))
     ss, outs = coq_slot_sites(ctx)
     if ss is None:
         ctx.violation("could not evaluate the slot-site inventory", {"log": outs[-2000:]}, no_input=True)
